@@ -16,18 +16,12 @@ inline uint64_t rotl64(uint64_t x, int r) { return (x << r) | (x >> (64 - r)); }
 inline void md5(const uint8_t *msg, size_t len, uint8_t out[16]) {
     static const int S[64] = {7, 12, 17, 22, 7, 12, 17, 22, 7, 12, 17, 22, 7, 12, 17, 22, 5, 9, 14, 20, 5, 9, 14, 20, 5, 9, 14, 20, 5, 9, 14, 20,
                               4, 11, 16, 23, 4, 11, 16, 23, 4, 11, 16, 23, 4, 11, 16, 23, 6, 10, 15, 21, 6, 10, 15, 21, 6, 10, 15, 21, 6, 10, 15, 21};
-    uint32_t K[64];
-    for (int i = 0; i < 64; i++) K[i] = (uint32_t)(int64_t)floor(fabs(sin((double)i + 1.0)) * 4294967296.0);
+    static uint32_t K[64]; static bool init = false;
+    if (!init) { for (int i = 0; i < 64; i++) K[i] = (uint32_t)(int64_t)floor(fabs(sin((double)i + 1.0)) * 4294967296.0); init = true; }
     uint32_t a0 = 0x67452301, b0 = 0xefcdab89, c0 = 0x98badcfe, d0 = 0x10325476;
-    size_t padded = ((len + 8) / 64 + 1) * 64;
-    std::string buf((const char *)msg, len);
-    buf.push_back((char)0x80);
-    buf.resize(padded, '\0');
-    uint64_t bits = (uint64_t)len * 8;
-    for (int i = 0; i < 8; i++) buf[padded - 8 + (size_t)i] = (char)(bits >> (8 * i));
-    for (size_t off = 0; off < padded; off += 64) {
+    auto block = [&](const uint8_t *p) {
         uint32_t M[16];
-        for (int i = 0; i < 16; i++) { const uint8_t *p = (const uint8_t *)buf.data() + off + 4 * (size_t)i; M[i] = (uint32_t)p[0] | ((uint32_t)p[1] << 8) | ((uint32_t)p[2] << 16) | ((uint32_t)p[3] << 24); }
+        for (int i = 0; i < 16; i++) M[i] = (uint32_t)p[4 * i] | ((uint32_t)p[4 * i + 1] << 8) | ((uint32_t)p[4 * i + 2] << 16) | ((uint32_t)p[4 * i + 3] << 24);
         uint32_t A = a0, B = b0, C = c0, D = d0;
         for (int i = 0; i < 64; i++) {
             uint32_t F; int g;
@@ -39,7 +33,17 @@ inline void md5(const uint8_t *msg, size_t len, uint8_t out[16]) {
             A = D; D = C; C = B; B = B + rotl32(F, S[i]);
         }
         a0 += A; b0 += B; c0 += C; d0 += D;
-    }
+    };
+    size_t full = len / 64;
+    for (size_t i = 0; i < full; i++) block(msg + 64 * i);          // in place: no copy of the message
+    uint8_t tail[128]; memset(tail, 0, sizeof tail);
+    size_t rem = len - full * 64;
+    if (rem) memcpy(tail, msg + full * 64, rem);
+    tail[rem] = 0x80;
+    size_t tl = rem < 56 ? 64 : 128;
+    uint64_t bits = (uint64_t)len * 8;
+    for (int i = 0; i < 8; i++) tail[tl - 8 + (size_t)i] = (uint8_t)(bits >> (8 * i));
+    block(tail); if (tl == 128) block(tail + 64);
     uint32_t r[4] = {a0, b0, c0, d0};
     for (int i = 0; i < 4; i++) for (int j = 0; j < 4; j++) out[4 * i + j] = (uint8_t)(r[i] >> (8 * j));
 }
